@@ -123,7 +123,13 @@ def make(system: model.System) -> None:
 
         subjects: Sequence[model.Documentable] = ()
         if options.htmlsubjects:
-            subjects = [system.allobjects[fn] for fn in options.htmlsubjects]
+            subjects = []
+            for fn in options.htmlsubjects:
+                subject = system.allobjects.get(fn)
+                if subject is None:
+                    system.msg('html', f"--html-subject: there is no object named {fn!r}", thresh=-1)
+                else:
+                    subjects.append(subject)
         else:
             writer.writeSummaryPages(system)
             if not options.htmlsummarypages:
